@@ -49,7 +49,7 @@ def compare(case, io, mo):
     """semcheck.compare, query by query; a difference between the two Coq semantics (compiled-code model vs the auxiliary SLD
     reference - the implementation has already been found equal to the compiled-code model at that point) is not reported for a
     query in which findall/3 collected an instance that contains an unbound variable of the caller (lib/findall_diag.py)"""
-    if not (isinstance(io, dict) and 'queries' in io and isinstance(mo, list) and not (mo and mo[0] == 'front-rejects')):
+    if not (isinstance(io, dict) and 'queries' in io and isinstance(mo, list) and not (mo and mo[0] in ('front-rejects', 'too-large'))):
         return semcheck.compare(case, io, mo)
     idx = semcheck.compared_queries(case, io)
     for k, qi in enumerate(idx):
